@@ -193,10 +193,19 @@ def optimizer_range(chk, pid):
         # zero-point term: round(-rmin / scale).to(int8)
         zs = quant.peel(z)
         zn = quant.stage_names(zs)
+        clamped = None
+        if zn[:4] == ["cast", "clamp", "round:nearest", "div"]:
+            clamped = zs[1]
+            zs = [zs[0]] + zs[2:]
+            zn = quant.stage_names(zs)
         okz = zn[:3] == ["cast", "round:nearest", "div"] and U(zs[0][1]) == "torch.int8"
         if okz:
             num, den = zs[2][1], zs[2][2]
             okz = U(num) == f"-{U(rmin)}" and U(den) == U(sc)
+        if okz and clamped is not None and not both:
+            chk.bad(r5, site, qn, "zero-point clamped although the range excludes zero", f"{qn}: the zero-point is clamped to [`{U(clamped[1]) if clamped[1] is not None else None}`, `{U(clamped[2]) if clamped[2] is not None else None}`] but -rmin/scale lies outside the code range for every one-sided group (rmin > 0 or rmax < 0): the codes of such a group saturate",
+                    "a group whose values all have the same sign, e.g. values in [0.5, 1.5]: error ~ |rmin| instead of half a step")
+            continue
         if not okz:
             chk.unknown(r5, site, f"{qn}: zero-point `{U(z)[:80]}` is not round(-rmin / scale).to(int8) (stages {zn})")
         elif both:
